@@ -773,7 +773,68 @@ func fieldIdx(st *types.Struct, name string) int {
 			return i
 		}
 	}
-	panic("vrt: no field " + name)
+	// the anchored state of a property was renamed or restructured: this harness cannot observe it
+	panic(&GoPanic{Kind: "unsupported", Msg: "the harness observes the struct field \"" + name + "\", which this tree does not have"})
+}
+
+// findField locates a field by name in a struct object, descending into embedded structs (by value or
+// by pointer).  Returns the cell, or nil.
+func (ex *Exec) findField(so *StructObj, st *types.Struct, name string, depth int) *Cell {
+	if depth > 4 {
+		return nil
+	}
+	for i := 0; i < st.NumFields(); i++ {
+		if st.Field(i).Name() == name {
+			return so.f[i]
+		}
+	}
+	for i := 0; i < st.NumFields(); i++ {
+		f := st.Field(i)
+		if !f.Embedded() {
+			continue
+		}
+		switch ft := f.Type().Underlying().(type) {
+		case *types.Struct:
+			if inner, ok := so.f[i].v.(*StructObj); ok {
+				if c := ex.findField(inner, ft, name, depth+1); c != nil {
+					return c
+				}
+			}
+		case *types.Pointer:
+			if est, ok := ft.Elem().Underlying().(*types.Struct); ok {
+				if pc, ok := so.f[i].v.(*Cell); ok && pc != nil {
+					if inner, ok := pc.v.(*StructObj); ok {
+						if c := ex.findField(inner, est, name, depth+1); c != nil {
+							return c
+						}
+					}
+				}
+			}
+		}
+	}
+	return nil
+}
+
+func (ex *Exec) namedField(obj Value, name string) *Cell {
+	ifc, ok := obj.(Iface)
+	if !ok {
+		panic(&GoPanic{Kind: "nil", Msg: "vrt field access on nil"})
+	}
+	p, ok := ifc.v.(*Cell)
+	pt, ok2 := ifc.t.Underlying().(*types.Pointer)
+	if !ok || !ok2 || p == nil {
+		panic(&GoPanic{Kind: "unsupported", Msg: "vrt field access needs a pointer to a struct"})
+	}
+	st, ok := pt.Elem().Underlying().(*types.Struct)
+	so, ok3 := p.v.(*StructObj)
+	if !ok || !ok3 {
+		panic(&GoPanic{Kind: "unsupported", Msg: "vrt field access needs a pointer to a struct"})
+	}
+	c := ex.findField(so, st, name, 0)
+	if c == nil {
+		panic(&GoPanic{Kind: "unsupported", Msg: "the harness observes the struct field \"" + name + "\", which this tree does not have"})
+	}
+	return c
 }
 
 func (ex *Exec) flatten(v Value, out *[]Value) {
@@ -1038,6 +1099,13 @@ var vrtIntrinsics = map[string]intrinsicFn{
 			out = append(out, ex.load(d.b.cells[d.off+k]))
 		}
 		return ex.sliceOf(types.Typ[types.Int], out)
+	},
+	"IntField": func(ex *Exec, _ *ssa.Function, a []Value, _ ssa.Instruction) Value {
+		return ex.load(ex.namedField(a[0], a[1].(string)))
+	},
+	"SetIntField": func(ex *Exec, _ *ssa.Function, a []Value, _ ssa.Instruction) Value {
+		ex.store(ex.namedField(a[0], a[1].(string)), a[2], "vrt.SetIntField")
+		return nil
 	},
 	"Tracked": func(ex *Exec, _ *ssa.Function, a []Value, _ ssa.Instruction) Value {
 		g, gt := gctxOf(ex, a[0])
